@@ -8,6 +8,7 @@ package main
 import (
 	"bytes"
 	"fmt"
+	"strings"
 
 	"github.com/Eyevinn/mp4ff/aac"
 	"github.com/Eyevinn/mp4ff/av1"
@@ -127,6 +128,36 @@ func split3(in []byte) (a, b, rest []byte) {
 	a, in = cut(in)
 	b, in = cut(in)
 	return a, b, in
+}
+
+func hexList(xs []uint32) string {
+	ss := make([]string, len(xs))
+	for i, x := range xs {
+		ss[i] = hx.HexU(uint64(x))
+	}
+	return strings.Join(ss, ",")
+}
+
+// picTimingHevcString projects a decoded message to "fields;NumNalusInDuMinus1;DuCpbRemovalDelayIncrementMinus1" (hex)
+func picTimingHevcString(m sei.SEIMessage) string {
+	pt, ok := m.(*sei.PicTimingHevcSEI)
+	if !ok || pt == nil {
+		return "not-a-PicTimingHevcSEI"
+	}
+	var ps, sst, dup uint32
+	if pt.FrameFieldInfo != nil {
+		ps, sst = uint32(pt.FrameFieldInfo.PicStruct), uint32(pt.FrameFieldInfo.SourceScanType)
+		if pt.FrameFieldInfo.DuplicateFlag {
+			dup = 1
+		}
+	}
+	var common uint32
+	if pt.DuCommonCpbRemovalDelayFlag {
+		common = 1
+	}
+	f := []uint32{ps, sst, dup, pt.AuCpbRemovalDelayMinus1, pt.PicDpbOutputDelay, pt.PicDpbOutputDuDelay,
+		pt.NumDecodingUnitsMinus1, common, pt.DuCommonCpbRemovalDelayIncrementMinus1}
+	return hexList(f) + ";" + hexList(pt.NumNalusInDuMinus1) + ";" + hexList(pt.DuCpbRemovalDelayIncrementMinus1)
 }
 
 func bitOf(arg, k int) bool { return arg>>uint(k)&1 == 1 }
@@ -355,7 +386,10 @@ func init() {
 			if err == nil && m != nil {
 				sink = useMsgs([]sei.SEIMessage{m})
 			}
-			return errClass(err), nil
+			if err != nil {
+				return "err", nil
+			}
+			return "ok", func() string { return picTimingHevcString(m) }
 		}},
 		target{"sei.DecodeMasteringDisplayColourVolumeSEI", false, func(in []byte, arg int) (string, func() string) {
 			m, err := sei.DecodeMasteringDisplayColourVolumeSEI(sei.NewSEIData(137, in))
